@@ -603,7 +603,8 @@ def kge(obs, sim, trans=transform.Identity(), excludenull=False):
 
     # Correlation
     if abs(stds) > EPS:
-        corr = np.corrcoef(tobs, tsim)[0, 1]
+        # obs and sim may be [n, 1] arrays: corrcoef would treat each row as a variable
+        corr = np.corrcoef(np.ravel(tobs), np.ravel(tsim))[0, 1]
     else:
         warnings.warn("KGE - Standard dev of sim is close to " +
                       f"zero ({stds:3.3e}), cannot compute correlation, " +
